@@ -668,4 +668,4 @@ pub fn cells(tier: Tier) -> Vec<CellPlan> {
     v
 }
 
-pub const RULE: &str = "(a) size cells: 2-3 entities with payload sizes around the packing boundaries of three maximum message sizes; (b) graph cells: every sequence of relationship insert / replace / remove, despawn and marker toggles over four entities; in both, everything is mutated in one tick and every subset (every order for <= 3 messages) of that tick's mutate messages is delivered first, the rest one frame later; oracles: per-entity and per-related-group all-or-nothing on the client, one entity / one group per message, no message above the client's maximum when every chunk fits, a single message when everything fits; non-trivial = at least one mutate message delivered";
+pub const RULE: &str = "(a) size cells: 2-3 entities with payload sizes around the packing boundaries of three maximum message sizes; (b) graph cells: every sequence of relationship insert / replace / remove, despawn and marker toggles over four entities (also with a server-only entity without the marker that carries the relationship and moves between two families, two operations per tick); in both, everything is mutated in one tick and every subset (every order for <= 3 messages) of that tick's mutate messages is delivered first, the rest one frame later; oracles: per-entity and per-related-group all-or-nothing on the client, one entity / one group per message, no message above the client's maximum when every chunk fits, a single message when everything fits; non-trivial = at least one mutate message delivered";
